@@ -17,7 +17,6 @@ package internal
 import (
 	"net/url"
 	"strings"
-	"unicode"
 )
 
 // URLKeyer describes the interface implemented by types that can generate a
@@ -141,7 +140,8 @@ func fromHex(c byte) byte {
 
 // isUnreserved reports whether r is an unreserved character per RFC 3986 §2.3.
 func isUnreserved(r rune) bool {
-	return unicode.IsLetter(r) || unicode.IsDigit(r) ||
+	// ALPHA / DIGIT are ASCII only: an escaped octet >= 0x80 is never unreserved.
+	return ('a' <= r && r <= 'z') || ('A' <= r && r <= 'Z') || ('0' <= r && r <= '9') ||
 		r == '-' || r == '.' || r == '_' || r == '~'
 }
 
